@@ -125,7 +125,7 @@ func (t *intScalar) CoerceOut(v interface{}) (interface{}, error) {
 	case string:
 		var i int64
 		if i, err = strconv.ParseInt(tv, 10, 64); err == nil {
-			v = int32(i)
+			v, err = intOut(i, tv)
 		} else {
 			v = nil
 		}
